@@ -4,6 +4,8 @@ import (
 	"fmt"
 	"reflect"
 
+	"github.com/PapaCharlie/go-restli/v2/restlicodec"
+	"verifgen/gen/fam"
 	"verifgen/hx"
 )
 
@@ -117,6 +119,33 @@ func runC11(cfg *hx.Config) {
 			}
 		}
 		sh.Add(c.coq(), c.describe())
+	}
+	// history: a known symbol, then an unknown one, decoded into the SAME receiver (bare enum, required enum field of a record,
+	// optional enum field): the unknown symbol must become the distinguished unknown value, never keep the earlier symbol
+	for _, f := range []int{0, 2} {
+		q := func(s string) string {
+			if f == 0 {
+				return `"` + s + `"`
+			}
+			return s
+		}
+		rd := func(data string) restlicodec.Reader { r, _ := newReader(f, data, nil, 0); return r }
+		var c fam.Color
+		_ = c.UnmarshalRestLi(rd(q("GREEN")))
+		err := c.UnmarshalRestLi(rd(q("PURPLE")))
+		rep.Evaluations++
+		if err != nil || int(c) != 0 {
+			rep.Fail("validity:unknown-enum-symbol:reused-receiver", "an unknown enum symbol decoded into a receiver that held a symbol did not become the unknown value", "generated UnmarshalRestLi (enum)", map[string]interface{}{"format": formats[f], "first": "GREEN", "second": "PURPLE", "value": int(c)}, fmt.Sprint(err))
+		}
+		big := new(fam.Big)
+		docs := map[int][2]string{0: {`{"p":{"i":1,"l":1,"f":1,"d":1,"b":true,"s":"","y":""},"e":"BLUE","fx":"abcd","tl":1}`, `{"p":{"i":1,"l":1,"f":1,"d":1,"b":true,"s":"","y":""},"e":"MAUVE","fx":"abcd","tl":1}`},
+			2: {`(p:(i:1,l:1,f:1,d:1,b:true,s:'',y:''),e:BLUE,fx:abcd,tl:1)`, `(p:(i:1,l:1,f:1,d:1,b:true,s:'',y:''),e:MAUVE,fx:abcd,tl:1)`}}
+		_ = big.UnmarshalRestLi(rd(docs[f][0]))
+		err = big.UnmarshalRestLi(rd(docs[f][1]))
+		rep.Evaluations++
+		if err != nil || int(big.E) != 0 {
+			rep.Fail("validity:unknown-enum-symbol:reused-receiver", "an unknown enum symbol decoded into a record whose enum field held a symbol did not become the unknown value", "generated UnmarshalRestLi (enum)", map[string]interface{}{"format": formats[f], "type": "Big.e", "value": int(big.E)}, fmt.Sprint(err))
+		}
 	}
 	sh.Close()
 	rep.Shards = sh.Files
